@@ -77,7 +77,8 @@ class LeakyTanh(AbstractBijection):
     def inverse(self, y, condition=None):
         is_linear = jnp.abs(y) >= jnp.tanh(self.max_val)
         x_linear = (y - jnp.sign(y) * self.intercept) / self.linear_grad
-        x_arctan = jnp.arctanh(y)
+        y_robust = jnp.where(is_linear, 0, y)  # To avoid nans in gradients
+        x_arctan = jnp.arctanh(y_robust)
         return jnp.where(is_linear, x_linear, x_arctan)
 
     def inverse_and_log_det(self, y, condition=None):
